@@ -826,3 +826,24 @@ fire("c10-inflation-period-in-whole-minutes", ["C10", "C19"], ["C10.inventory", 
 
 fire("c06-withdraw-looks-up-raw-owner", ["C06", "C05"], ["C06.key", "C05.key"],
      (VEST, "	accVestingPools, vestingPoolsFound := k.GetAccountVestingPools(ctx, ownerAddress.String())", "	accVestingPools, vestingPoolsFound := k.GetAccountVestingPools(ctx, owner)"))
+
+# ---------------- local time zone (F23, F24, seeded C11c) ----------------
+fire("c11-upgrade-adddate-in-local-zone", "C11", ["C11.inventory"],
+     (AUP, "	startTime := time.Unix(vestingAccount.StartTime, 0).UTC()", "	startTime := time.Unix(vestingAccount.StartTime, 0)"))
+fire("c11-error-text-in-local-zone", "C11", ["C11.inventory"],
+     ("x/cfevesting/types/message_create_vesting_account.go", "time.Unix(startTime, 0).UTC().String()", "time.Unix(startTime, 0).String()"))
+silent("c11-upgrade-adds-seconds-instead", "C11",
+     (AUP, "	vestingAccount.StartTime = startTime.AddDate(1, 0, 0).Unix()", "	vestingAccount.StartTime = startTime.AddDate(1, 0, 0).Add(0).Unix()"))
+
+# ---------------- round-3 batch C derived ----------------
+GEN_M = "x/cfeminter/genesis.go"
+fire("c12-import-resets-fresh-minter-state", "C12", ["C12.verbatim"],
+     (GEN_M, "	k.SetMinterState(ctx, genState.MinterState)", "	minterState := genState.MinterState\n	if minterState.AmountMinted.IsNil() || minterState.AmountMinted.IsZero() {\n		minterState.RemainderFromPreviousMinter = sdk.ZeroDec()\n	}\n	k.SetMinterState(ctx, minterState)"))
+silent("c12-import-through-local-copy", "C12",
+     (GEN_M, "	k.SetMinterState(ctx, genState.MinterState)", "	minterState := genState.MinterState\n	k.SetMinterState(ctx, minterState)"))
+fire("c14-no-payout-in-idle-block", "C14", ["C14.retry"],
+     (ABCI_D, "	k.SendCoinsFromStates(ctx, states)\n}", "	if len(subDistributors) == 0 {\n		return\n	}\n	k.SendCoinsFromStates(ctx, states)\n}"))
+SIG_STORE = "x/cfesignature/keeper/msg_server_store_signature.go"
+fire("c11-signature-timestamp-in-local-zone", "C11", ["C11.inventory"],
+     (SIG_STORE, "	signatureObject.Timestamp = ctx.BlockTime().String()", "	signatureObject.Timestamp = time.Unix(ctx.BlockTime().Unix(), 0).String()"),
+     (SIG_STORE, "import (\n", "import (\n	\"time\"\n"))
